@@ -1,0 +1,6 @@
+//go:build !verif
+// +build !verif
+
+package rand
+
+func verifRead(b []byte) (int, bool) { return 0, false }
